@@ -17,6 +17,15 @@ Theorem C09_visible_only_after_validate : forall split share ths acts,
 Proof. exact visible_lemma. Qed.
 Print Assumptions C09_visible_only_after_validate.
 
+(* ... and it stays valid (and tracked) until the sweeper removes the key: lookups are consistent with
+   a serial order in which those that found the registration come after its ingest. *)
+Theorem C09_seen_stays_valid : forall split share ths acts k o r tr1 tr2,
+  let c := run split share (init ths) acts in
+  trace c = tr1 ++ ESeen k o r :: tr2 -> ~ In (ERemove k) tr1 ->
+  exists o', decoys c k = Some o' /\ o_valid (objs c o') = true.
+Proof. exact seen_stays_valid_lemma. Qed.
+Print Assumptions C09_seen_stays_valid.
+
 (* ... and, for the code with TrackRegIfNotExists, what the handler is handed (and what is announced)
    had its own covert address checked and resolved by its own ingest first -- sweeper, reloads and
    ageing included. *)
@@ -33,6 +42,14 @@ Theorem C09_no_lost_regcount : forall split share ths acts k,
   tracks_since k (trace c) = match decoys c k with Some o => o_regcount (objs c o) | None => 0 end.
 Proof. exact regcount_lemma. Qed.
 Print Assumptions C09_no_lost_regcount.
+
+(* Nothing deadlocks: a worker, handler or reload never waits for another thread -- whenever it is
+   scheduled it takes a step that brings it strictly closer to its end (at most 5 own steps). *)
+Theorem C09_no_thread_waits : forall split share c t ch,
+  is_sweeper (thr c t) = false -> thread_ended (thr c t) = false ->
+  own_steps_left (thr (step split share c (Run t ch)) t) < own_steps_left (thr c t).
+Proof. exact step_progress. Qed.
+Print Assumptions C09_no_thread_waits.
 
 (* With one sweeper (as the station runs it) the removal step never dereferences a missing record. *)
 Theorem C09_no_panic_in_sweep : forall split share ths acts,
